@@ -394,9 +394,54 @@ func (i *interpreter) decodeRune(fr *frame, s value) (value, int) {
 	return res[0], int(asInt64(res[1]))
 }
 
-func (i *interpreter) mapRange(m *omap) iter {
-	return &omapIter{m: m}
+// mapRange iterates a Go map. Go randomises map iteration order; with
+// symx.MapOrder(true) every range over a map with 2..3 live entries inside
+// origami code takes its order from a fresh symbolic choice (all n! orders are
+// explored as sibling paths), up to mapOrderCap ranges per path; otherwise
+// insertion order (deterministic replay).
+func (i *interpreter) mapRange(fr *frame, m *omap) iter {
+	if !i.mapOrderSym || i.path == nil || m == nil || fr == nil || fr.fn.Pkg == nil {
+		return &omapIter{m: m}
+	}
+	if !strings.HasPrefix(fr.fn.Pkg.Pkg.Path(), "github.com/php-any/origami") {
+		return &omapIter{m: m}
+	}
+	var live []int
+	for k, e := range m.ents {
+		if e.live {
+			live = append(live, k)
+		}
+	}
+	n := len(live)
+	if n < 2 || n > 3 || i.mapOrderUsed >= mapOrderCap {
+		return &omapIter{m: m}
+	}
+	i.mapOrderUsed++
+	nperm := 2
+	if n == 3 {
+		nperm = 6
+	}
+	t := i.newInput(fmt.Sprintf("maporder%d", i.mapOrderUsed), "choose", 64)
+	c := i.ctx
+	i.assume(mkSym(c.Bin(sym.OpUlt, t, c.BV(uint64(nperm), 64)), types.Bool))
+	p := i.concretize(&Sym{T: t, K: types.Int})
+	perms2 := [][]int{{0, 1}, {1, 0}}
+	perms3 := [][]int{{0, 1, 2}, {0, 2, 1}, {1, 0, 2}, {1, 2, 0}, {2, 0, 1}, {2, 1, 0}}
+	var perm []int
+	if n == 2 {
+		perm = perms2[p]
+	} else {
+		perm = perms3[p]
+	}
+	ord := make([]int, n)
+	for k, pi := range perm {
+		ord[k] = live[pi]
+	}
+	i.curFn = fr.fn
+	return &omapIter{m: m, ord: ord}
 }
+
+const mapOrderCap = 4
 
 // ---- channels (sequential model; scheduler.go adds threads)
 
@@ -457,6 +502,8 @@ func (w *Worker) runPath(fn *ssa.Function, it workItem, fuel int64, exp *Explore
 	i.exp = exp
 	i.fuel = fuel
 	i.softFuelAt = -1
+	i.mapOrderSym = false
+	i.mapOrderUsed = 0
 	i.depth = 0
 	i.panicSite = ""
 	if i.sched != nil {
